@@ -61,7 +61,7 @@ FLOORS = {
     'history:nested-collation': (0.10, 'history:base-run'),
     'env:canary-asked': (0.2, 'env:query'),
     'env:positive-control-ok': (0.9, 'env:batch'),
-    'entities:entity-declaration': (0.5, 'entities:text'),
+    'entities:entity-declaration': (0.4, 'entities:text'),
     'entities:positive-control-ok': (0.9, 'entities:batch'),
     'threads:locale-collation-job': (0.3, 'threads:case'),
 }
@@ -157,13 +157,34 @@ XML_DOCS = [
 # --------------------------------------------------------------------------
 
 
-def _fork_call(fn, arg, timeout=CHILD_TIMEOUT):
+_preloaded = False
+
+
+def _preload():
+    """import (never evaluate) everything the children need, once per worker, so that a fork is cheap"""
+    global _preloaded
+    if not _preloaded:
+        import decimal, locale, tempfile, threading, gc                      # noqa: F401
+        import xml.etree.ElementTree, lxml.etree                            # noqa: F401
+        import elementpath, elementpath.xpath30, elementpath.xpath31, elementpath.collations   # noqa: F401
+        for ver in ('2.0', '3.0', '3.1'):
+            _parser_class(ver)().parse('1')      # builds the class-level tokenizer only (no locale, no regex caches)
+        gc.collect()
+        gc.freeze()        # children then never traverse (and copy-on-write) the parent's heap
+        _preloaded = True
+
+
+def _fork_call(fn, arg, timeout=None):
     """Run fn(arg) in a forked child; returns {'ok': json} | {'timeout': True} | {'died': status}."""
+    _preload()
+    timeout = CHILD_TIMEOUT if timeout is None else timeout
     r, w = os.pipe()
     pid = os.fork()
     if pid == 0:
         try:
             os.close(r)
+            dn = os.open(os.devnull, os.O_WRONLY)
+            os.dup2(dn, 2)     # "Exception ignored in generator" chatter of the child
             try:
                 out = {'ok': fn(arg)}
             except BaseException:
@@ -311,6 +332,7 @@ def _child_setup(cfg):
     os.environ[CANARY_NAME] = CANARY_VALUE
     S.real_setlocale(locale.LC_COLLATE, cfg.get('lc', 'C'))
     decimal.getcontext().prec = cfg.get('prec', 28)
+    decimal.DefaultContext.prec = cfg.get('prec', 28)      # what new threads start from
     fd, S.canary_path = tempfile.mkstemp(prefix='vp_c19_', suffix='.txt')
     os.write(fd, CANARY_FILE_TEXT.encode())
     os.close(fd)
@@ -432,12 +454,30 @@ def _evaluate(api, expr, variables, pk, ver, root, ctx_kwargs=None):
     return list(res) if hasattr(res, '__next__') else res
 
 
+def _norm(v, top=True):
+    """results as plain data: select()/evaluate() return a bare value or a list; arrays keep their structure"""
+    from elementpath.xpath_tokens import XPathArray, XPathMap
+    if isinstance(v, XPathArray):
+        r = ['array', [_norm(x, False) for x in v.items()]]
+    elif isinstance(v, XPathMap):
+        r = ['map', [[_norm(k, False), _norm(x, False)] for k, x in v.items()]]
+    elif isinstance(v, (list, tuple)):
+        return [_norm(x, False) for x in v]
+    elif isinstance(v, (str, int, bool)) or v is None:
+        r = v
+    elif hasattr(v, 'tag') and hasattr(v, 'attrib'):
+        r = ['element', str(v.tag), v.text]
+    else:
+        r = repr(v)
+    return [r] if top else r
+
+
 def _outcome(fn):
     """run fn(); -> (['ok', repr] | ['err', code, type] | ['escape', bucket, repr] | ['deadlock', holder], exc-site)"""
     from elementpath import ElementPathError
     try:
         res = fn()
-        return ['ok', repr(res)], None
+        return ['ok', repr(_norm(res))], None
     except _SelfDeadlock as e:
         return ['deadlock', str(e.holder)], 'self-deadlock'
     except ElementPathError as e:
@@ -477,7 +517,8 @@ def _child_history(arg):
             c0 = S.calls
             hit0 = S.hit
             out, site = _outcome(lambda: _evaluate(step.get('api', 'select'), expr, variables, pk, ver, root))
-            gc.collect()       # abandoned generators are finalised before the inspection (refcounting does it anyway)
+            if S.proxy.locked():
+                gc.collect()   # give abandoned generators in reference cycles the chance to be finalised first
             after = _snapshot(S)
             hit = S.hit if S.hit is not hit0 else None
             rec = {'out': out, 'site': site, 'viol': _state_violations(before, after), 'label': label, 'expr': expr,
@@ -588,6 +629,8 @@ def _judge_run(case, k, rec, discs):
         hit = sr['hit']
         hit_any = hit_any or hit is not None
         restore_hit = bool(hit and hit['restore'])
+        if hit:
+            when = 'fault-at:' + hit['caller'] + ('(restore)' if restore_hit else '')
         for kind, exp, obs in sr['viol']:
             if restore_hit and kind == 'lc-collate-changed':
                 continue
@@ -599,8 +642,8 @@ def _judge_run(case, k, rec, discs):
             discs.append(Disc(out[1], 'value or ElementPathError', out[2], where))
         # answers
         if step['k'] == 'probe':
-            if out != ['ok', '-1'] and out[0] != 'escape' and not hit:
-                discs.append(Disc(f'C19/probe/{label}', '-1', out, where))
+            if out != ['ok', '[-1]'] and out[0] != 'escape' and not hit:
+                discs.append(Disc(f'C19/probe/{label}', '[-1]', out, where))
         elif out[0] != 'deadlock' and not restore_hit:
             solo = _solo(cfg, step, rec)
             if solo is not None and solo[0] != 'deadlock' and not _same_answer(out, solo):
@@ -672,7 +715,7 @@ _ENV_FORMS = [
     ('3.0', "function-lookup(xs:QName('fn:environment-variable'), 1)({N})"),
     ('3.0', "let $f := environment-variable#1 return $f({N})"),
     ('3.0', "({N}, 'PATH') ! environment-variable(.)"),
-    ('3.0', "string-join(for $n in ({N}, 'PATH') return environment-variable($n), '|')"),
+    ('3.0', "string-join(for $v in ({N}, 'PATH') return environment-variable($v), '|')"),
     ('3.0', "available-environment-variables()"),
     ('3.0', "available-environment-variables#0()"),
     ('3.0', "function-lookup(xs:QName('fn:available-environment-variables'), 0)()"),
@@ -686,7 +729,7 @@ _ENV_FORMS = [
     ('3.1', "array:size([available-environment-variables()])"),
 ]
 # expected result under default settings, by form index (own derivation from "nothing observable")
-_ENV_EXPECT = {12: '[0]', 14: '[False]', 15: "['']", 8: "['']", 19: '[1]'}
+_ENV_EXPECT = {12: '[0]', 14: '[False]', 15: "['']", 8: "['']", 19: '[1]', 17: "[['array', [[]]]]"}
 _ENV_CTX = ['default', 'explicit-false', 'item', 'doc']
 
 _env_query = st.fixed_dictionaries({
@@ -759,7 +802,7 @@ def judge_env(case, rec: Recorder | None = None) -> list[Disc]:
             want = _ENV_EXPECT.get(q['form'], '[]')
             if CANARY_VALUE in out[1]:
                 discs.append(Disc(f'C19/env/canary-visible/{fkey}', want, out[1], where))
-            elif out[1] != want:
+            elif out[1] != want and not (q['form'] == 17 and out[1] == '[]'):    # select() flattens arrays
                 discs.append(Disc(f'C19/env/observable/{fkey}', want, out[1], where))
         else:
             # an error is "nothing observable" as well, but none is expected from these forms
@@ -786,7 +829,7 @@ _ENT_NAMES = ['e', 'ent', 'lt2', 'a.b', '_x', 'é']
 def _entity_text(draw):
     """JSON description of an XML text with a DOCTYPE; rendered by _render_doc."""
     decls = []
-    n = draw(st.integers(0, 3))
+    n = draw(st.integers(1, 3))
     kinds = ['internal', 'external-file', 'external-public', 'parameter', 'nested', 'unparsed', 'param-external',
              'element', 'attlist', 'notation', 'comment', 'pi']
     for _ in range(n):
@@ -798,8 +841,7 @@ def _entity_text(draw):
                                         '<?xml version="1.1"?>', '<?xml version="1.0" encoding="UTF-16"?>',
                                         '<?xml version="1.0" encoding="latin1"?>', '﻿'])),
         'pre': draw(st.sampled_from(['', '', '', '\n', '<!-- c -->', '<?pi x?>', ' ', '<!-- <!DOCTYPE x> -->'])),
-        'doctype': draw(st.sampled_from(['internal', 'internal', 'internal', 'internal', 'system', 'public',
-                                         'system+internal', 'none'])),
+        'doctype': draw(st.sampled_from(['internal'] * 8 + ['system', 'public', 'system+internal', 'system+internal', 'none'])),
         'ws': draw(st.sampled_from(_WS)),
         'decls': decls,
         'use': draw(st.sampled_from(['text', 'attr', 'unused', 'text', 'twice'])),
@@ -966,7 +1008,9 @@ _T_COLL = ["compare('a', 'b', 'C.utf8')", "compare('b', 'a', 'POSIX')", "contain
            "distinct-values(('a', 'b', 'a'), 'C.UTF-8')", "index-of(('a', 'b', 'a'), 'a', 'C.utf8')", "max(('a', 'b'), 'POSIX')",
            "compare('a', 'b', 'it_IT.UTF-8')", "compare('a', 'B', '%s')" % HTML, "deep-equal(('a', 'b'), ('a', 'b'), 'C.utf8')",
            "compare('a', 'b', '%s?lang=xx;fallback=no')" % UCA, "max(('a', 1), 'C.utf8')", "compare('a', 'b', '%s?lang=C')" % UCA,
-           "sort(('b', 'a'), 'C.utf8')", "ends-with('abc', 'c', 'C.utf8')"]
+           "sort(('b', 'a'), 'C.utf8')", "ends-with('abc', 'c', 'C.utf8')", "compare(/r/a[1], 'y', 'C.utf8')",
+           "index-of(//a, 'y', 'POSIX')", "distinct-values((//a, 'x'), 'C.UTF-8')", "max(//a/string(), 'C.utf8')",
+           "contains(/r/a[2], 'y', '%s?lang=C;fallback=no')" % UCA, "compare(/r/a[1], 'y', 'xx_XX.UTF-8')"]
 _T_POOLS = {'path': _T_PATHS, 'regex': _T_REGEX, 'arith': _T_ARITH, 'coll': _T_COLL}
 
 _tjob = st.one_of(
@@ -1010,17 +1054,26 @@ def _child_threads(case):
         def exprs(t):
             return [_T_POOLS[k][i] for k, i in case['jobs'][t]]
 
+        def build(t):
+            """[Selector | outcome of the failed construction (static evaluation raises at parse time)]"""
+            sels = []
+            for e in exprs(t):
+                box = []
+                out, _site = _outcome(lambda: box.append(elementpath.Selector(e, parser=P)))
+                sels.append(box[0] if box else out)
+            return sels
+
         def run_jobs(selectors, root, reps, sink):
             for _ in range(reps):
                 for sel in selectors:
-                    out, _site = _outcome(lambda: sel.select(root))
+                    out = sel if isinstance(sel, list) else _outcome(lambda: sel.select(root))[0]
                     sink.append(out[:2] if out[0] != 'escape' else out)
 
         def sequential():
             res = []
             for t in range(T):
                 root = shared if case['shared_root'] else _new_root(cfg.get('lxml', False))
-                sels = [elementpath.Selector(e, parser=P) for e in exprs(t)]
+                sels = build(t)
                 sink = []
                 run_jobs(sels, root, reps, sink)
                 res.append(sink)
@@ -1030,13 +1083,13 @@ def _child_threads(case):
             barrier = threading.Barrier(T)
             res = [[] for _ in range(T)]
             errs = []
-            prebuilt = None if case['build_in_thread'] else [[elementpath.Selector(e, parser=P) for e in exprs(t)] for t in range(T)]
+            prebuilt = None if case['build_in_thread'] else [build(t) for t in range(T)]
             roots = [shared if case['shared_root'] else _new_root(cfg.get('lxml', False)) for _ in range(T)]
 
             def work(t):
                 try:
                     barrier.wait()
-                    sels = prebuilt[t] if prebuilt is not None else [elementpath.Selector(e, parser=P) for e in exprs(t)]
+                    sels = prebuilt[t] if prebuilt is not None else build(t)
                     run_jobs(sels, roots[t], reps, res[t])
                 except BaseException:
                     errs.append(traceback.format_exc())
@@ -1122,7 +1175,7 @@ def judge_threads(case, rec: Recorder | None = None) -> list[Disc]:
     if rec is not None:
         kinds = {j[0] for j in all_jobs}
         classes = ['threads:case', f'threads:T{case["T"]}', 'threads:' + case['order']]
-        if 'coll' in kinds and any(j[0] == 'coll' and j[1] in (0, 1, 2, 3, 4, 5, 8, 10, 11, 12, 13) for j in all_jobs):
+        if 'coll' in kinds and any(j[0] == 'coll' and j[1] in (0, 1, 2, 3, 4, 5, 8, 10, 11, 12, 13, 14, 15, 16, 17, 18) for j in all_jobs):
             classes.append('threads:locale-collation-job')
         if 'regex' in kinds:
             classes.append('threads:regex-job')
@@ -1182,7 +1235,7 @@ def selftest():
 
 def jobs(tier, seed):
     q = tier == 'quick'
-    plan = {'history': (8, 40) if q else (10, 700), 'env': (2, 60) if q else (2, 1500),
+    plan = {'history': (8, 30) if q else (10, 700), 'env': (2, 60) if q else (2, 1500),
             'entities': (3, 60) if q else (2, 1500), 'threads': (3, 30) if q else (2, 500)}
     out = []
     for chk, (shards, n) in plan.items():
